@@ -44,7 +44,13 @@ pub fn check_triple(b: u64, e: u64, l: u64, all_sbn: bool) -> Option<(String, St
     }
     // byte lengths: every sbn (or the first/last 2048 of them for huge N)
     let n = nb_blocks;
-    let sbns: Vec<u64> = if all_sbn || n <= 4096 { (0..n).collect() } else { (0..2048).chain(n - 2048..n).collect() };
+    let sbns: Vec<u64> = if all_sbn || n <= 8192 {
+        (0..n).collect()
+    } else {
+        // first and last 2048 blocks and the blocks around the large/small boundary
+        let mid = nb_a_large.clamp(2048 + 3, n - 2048 - 3);
+        (0..2048).chain(mid - 3..mid + 3).chain(n - 2048..n).collect()
+    };
     let mut sum: u128 = 0;
     for sbn in &sbns {
         if *sbn > u32::MAX as u64 {
@@ -71,7 +77,7 @@ pub fn check_triple(b: u64, e: u64, l: u64, all_sbn: bool) -> Option<(String, St
 
 pub fn run(thorough: bool) -> i32 {
     let mut rep = Report::new("C07", "exploration", if thorough { "thorough" } else { "quick" });
-    let (bm, em, lm) = if thorough { (96u64, 32u64, 6000u64) } else { (32, 12, 1500) };
+    let (bm, em, lm) = if thorough { (200u64, 48u64, 12000u64) } else { (32, 12, 1500) };
     // small grid: one work item per (B, E)
     let mut items: Vec<(u64, u64)> = Vec::new();
     for b in 1..=bm {
@@ -142,6 +148,40 @@ pub fn run(thorough: bool) -> i32 {
             }
         }
     }
+    // structured mid-range grid: T = ceil(L/E) around the multiples of B (where a_large / a_small and the
+    // number of large blocks change), with L at, just below and just above a symbol boundary
+    for b in [1u64, 2, 3, 5, 8, 13, 64, 255, 256, 1000, 8192, 65535, 65536, 1 << 20] {
+        for e in [1u64, 2, 7, 16, 512, 1424, 1500, 8192, 65535] {
+            let mut ts: Vec<u64> = Vec::new();
+            if b <= 64 && thorough {
+                ts.extend(0..=(5 * b + 3));
+            } else {
+                for m in [1u64, 2, 3, 7, 255, 256, 257, 4095, 4096, 4097, 65535, 65536] {
+                    for d in [-2i64, -1, 0, 1, 2] {
+                        let t = (b as i128 * m as i128 + d as i128).max(0) as u128;
+                        if t * (e as u128) < (1u128 << 48) {
+                            ts.push(t as u64);
+                        }
+                    }
+                }
+            }
+            for t in ts {
+                for r in [0u64, 1, e - 1, e / 2] {
+                    // L with ceil(L/E) == t: (t-1)*E + r', r' in 1..=E
+                    if t == 0 {
+                        bcases.push((b, e, 0));
+                        break;
+                    }
+                    let l = (t - 1) * e + (r % e) + 1;
+                    if l < (1u64 << 48) {
+                        bcases.push((b, e, l));
+                    }
+                }
+            }
+        }
+    }
+    bcases.sort();
+    bcases.dedup();
     let nb = bcases.len() as u64;
     let bres = par_map(&bcases, |_, (b, e, l)| {
         let mut v = check_triple(*b, *e, *l, false);
@@ -163,7 +203,7 @@ pub fn run(thorough: bool) -> i32 {
     let mut scases = Vec::new();
     for b in 1..=5u16 {
         for e in 1..=4u16 {
-            for l in 0..=(if thorough { 70 } else { 45 }) {
+            for l in 0..=(if thorough { 200 } else { 45 }) {
                 scases.push((b, e, l as usize));
             }
         }
